@@ -83,5 +83,15 @@ func vC06LiveMPD(a *asset, mode, pph, maxTsbd int) {
 			}
 		}
 	}
+	if mode == 0 {
+		// $Number$ with several periods: the MPD changes when a new period starts - publishTime is the (absolute)
+		// start of the last period
+		// (computed in float seconds by the server: 1 ms tolerance)
+		want := 1000*startS + (firstK+nP-1)*periodDur*1000
+		pub := vDateTimeMS(mpd.PublishTime)
+		vAssert("C06.livempd.number.publishTime-is-last-period-start", pub >= want-1 && pub <= want+1)
+	} else {
+		vAssert("C06.livempd.publishTime-not-in-future", vDateTimeMS(mpd.PublishTime) <= now)
+	}
 	vReach("C06.livempd.end")
 }
